@@ -72,3 +72,45 @@ Fixpoint position_bases (k : Z) (bases : list bt) (cur : V) : V * plist :=
   end.
 
 Definition pscale (k : Z) (ps : plist) : plist := map (fun e => (fst e, vscale k (snd e))) ps.
+
+(* ---- exact ties: does the computation of [finalise] compare two equal quantities anywhere?  In exact arithmetic the comparisons of
+   finalise are homogeneous in the scale (Proofs/PosProofs.v), so with a font they can only come out differently from the design-unit
+   run where single-precision rounding of the scaled operands decides between EQUAL design-unit values.  Same recursion as finalise,
+   at scale 1; returns the positions' bookkeeping values it needs plus the tie flag. *)
+Fixpoint finalise_tie (fuel : nat) (t : bt) (isroot : bool) (base : V) (cmin : Z) : V * Z * bool :=
+  match fuel, t with
+  | _, Leaf => ((0, 0), cmin, false)
+  | O, BNode p _ _ => ((0, 0), cmin, false)
+  | S f, BNode p child sib =>
+      let shift := (p_shx p, p_shy p) in
+      let tadv := p_tadv p in
+      let pos0 := vadd base shift in
+      let '(pos, res, cmin1, tie1) :=
+        if isroot then (pos0, vadd base (p_tadv p, p_advy p), fst pos0, false)
+        else
+          let pos := vadd pos0 (p_atx p, p_aty p) in
+          let tadvv := if p_advpos p then fst pos + tadv - fst shift else 0 in
+          (pos, (tadvv, 0), (if (p_advpos p || (fst pos <? 0)) && (fst pos <? cmin) then fst pos else cmin),
+           (negb (p_advpos p) && (fst pos =? 0)) || ((p_advpos p || (fst pos <? 0)) && (fst pos =? cmin))) in
+      let '(res2, cmin2, tie2) :=
+        match child with
+        | Leaf => (res, cmin1, false)
+        | _ => let '(tres, c, tq) := finalise_tie f child false pos cmin1 in
+               ((if (isroot || p_advpos p) && (fst res <? fst tres) then tres else res), c, tq || ((isroot || p_advpos p) && (fst res =? fst tres)))
+        end in
+      let '(res3, cmin3, tie3) :=
+        match sib with
+        | Leaf => (res2, cmin2, false)
+        | _ => if isroot then (res2, cmin2, false)
+               else let '(tres, c, tq) := finalise_tie f sib false base cmin2 in
+                    ((if fst res2 <? fst tres then tres else res2), c, tq || (fst res2 =? fst tres))
+        end in
+      let tie4 := isroot && (cmin3 =? fst base) in
+      let res4 := if isroot && (cmin3 <? fst base) then (fst res3 + (fst pos - cmin3), snd res3) else res3 in
+      (res4, cmin3, tie1 || tie2 || tie3 || tie4)
+  end.
+Fixpoint bases_tie (bases : list bt) (cur : V) : bool :=
+  match bases with
+  | [] => false
+  | b :: rest => let '(res, _, tie) := finalise_tie 101 b true cur (fst cur) in tie || bases_tie rest res
+  end.
